@@ -554,3 +554,9 @@ func (d *Docs) Mutate(v *model.Val) (*model.Val, string) {
 		}
 	}
 }
+
+// ConformNode returns a value intended to be accepted at one schema node.
+func (d *Docs) ConformNode(n *model.Node) *model.Val {
+	d.budget = 200
+	return d.conform(n, 0)
+}
